@@ -431,6 +431,9 @@ inductive Rewrite1 : Expr → Expr → Prop
 inductive Rewrite : Expr → Expr → Prop
   | at {C : Expr → Expr} {e e' : Expr} : Ctx C → Rewrite1 e e' → Rewrite (C e) (C e')
 
+-- Pointer: part of this statement is proved for the evaluator model in RsjProps/C04Rewrite.lean
+-- (`C04_eval_rewrite_invariance_partial`: rewrites at the root of a program); that file also records that the
+-- statement as worded here is FALSE for the model (a `tailstrict` call is honoured only in tail position).
 /-- **C04 at full strength (unproved here).**  For an evaluator of whole
     programs `evalP maxStack fuel e = (result-or-error text, std.trace messages)`
     — to be instantiated with the evaluator model, e.g.
